@@ -2,6 +2,7 @@ package encoder
 
 import (
 	"context"
+	"os"
 	"sync"
 	"unsafe"
 
@@ -103,5 +104,11 @@ func TakeRuntimeContext() *RuntimeContext {
 }
 
 func ReleaseRuntimeContext(ctx *RuntimeContext) {
+	// per-call writers and references must not survive in the pooled context: a DebugDOT writer
+	// given without Debug() would otherwise be written to and closed by a later, unrelated call
+	ctx.Option.DebugOut = os.Stdout
+	ctx.Option.DebugDOTOut = nil
+	ctx.Option.ColorScheme = nil
+	ctx.Option.Context = nil
 	runtimeContextPool.Put(ctx)
 }
